@@ -59,6 +59,18 @@ def run_c20(check, thorough):
             continue
         if not same:
             routes_bad.append((f, wrt, f"StructuredFormula.differentiate gives {got._to_dict()}, differentiating each part gives {want._to_dict()}"))
+            continue
+        # ... and so does the collection of model specs of a structured formula (fresh, and attached to a built matrix)
+        df4 = pandas.DataFrame({c: [float(i + 1 + 2 * k) for i in range(4)] for k, c in enumerate("yabc")})
+        for how in ("fresh", "materialized"):
+            try:
+                specs = ModelSpec.from_spec(F) if how == "fresh" else model_matrix(f, df4).model_spec
+                gs = specs.differentiate(*wrt)._map(lambda sp: [repr(t) for t in sp.formula])._to_dict()
+            except Exception as e:
+                routes_bad.append((f, wrt, f"ModelSpecs.differentiate ({how}) raised {type(e).__name__}: {str(e)[:80]}"))
+                continue
+            if gs != want._to_dict():
+                routes_bad.append((f, wrt, f"ModelSpecs.differentiate ({how}) gives {gs}, differentiating each part gives {want._to_dict()}"))
     check.obligation("derivative.routes/ground", "ground" if not routes_bad else "refuted")
     for f, wrt, msg in routes_bad[:3]:
         check.violation("derivative-routes-differ", f"d/d{list(wrt)} of {f!r}: {msg}", {"kind": "c20_routes", "formula": f, "wrt": list(wrt)})
